@@ -711,6 +711,132 @@ func acceptedDifferences(ev *Ev, codec string) []uint64 {
 // known prefix p2 differs (a decoder that also tries another prefix accepts exactly those).  For each
 // accepted d it searches the 42-symbol window for an error pattern of weight <= 5 with that syndrome and
 // reports the resulting pair of strings.
+// boundarySingles: for every known prefix and every standard hash size, every other symbol at the first three
+// and the last ten payload positions (where fixed-size buffers and precomputed states begin and end).
+func boundarySingles(ev *Ev) {
+	seen := map[string]bool{}
+	var n int64
+	for _, net := range nets {
+		for _, p := range []string{net.Params.CashAddressPrefix, net.Params.SlpAddressPrefix} {
+			if p == "" || seen[p] {
+				continue
+			}
+			seen[p] = true
+			for _, size := range []int{20, 24, 28, 32, 40, 48, 56, 64} {
+				hash := make([]byte, size)
+				for i := range hash {
+					hash[i] = byte(i*13 + size)
+				}
+				body := refCashEncode(p, 0, hash)
+				valid := p + ":" + body
+				// a decoder that ignores the last one or two symbols (a buffer that is a symbol short): strings whose
+				// checksum relation holds for the TRUNCATED sequence are built by linear algebra on the remainder
+				// function and offered; if one is accepted, it and its copy with another last symbol are both accepted
+				syms := make([]byte, len(body))
+				for i := range syms {
+					syms[i] = byte(symbolOf(body[i]))
+				}
+				for t := 1; t <= 2; t++ {
+					if y, ok := solveTruncated(p, syms, t); ok {
+						b := []byte(p + ":")
+						for _, v := range y {
+							b = append(b, b32Charset[v])
+						}
+						a := string(b)
+						b[len(b)-1] = b32Charset[(y[len(y)-1]+1)%32]
+						n += 2
+						if a != valid && (c03ImplAccepts("cashaddr", a) || c03AddrAccepts(p, a)) {
+							ev.Note("decoder accepts %q, whose checksum only holds when the last %d symbol(s) are ignored", a, t)
+							kC03Witness.One(ev, c03Witness{Codec: "cashaddr", Valid: a, Corrupted: string(b)})
+							kC03Witness.One(ev, c03Witness{Codec: "cashaddr-address", Valid: a, Corrupted: string(b)})
+							return
+						}
+					}
+				}
+				if !c03ImplAccepts("cashaddr", valid) {
+					kC03Witness.One(ev, c03Witness{Codec: "cashaddr", Valid: valid, Corrupted: valid})
+					ev.Note("valid %d-bit address under prefix %q is rejected", size*8, p)
+					continue
+				}
+				var positions []int
+				for i := 0; i < 3; i++ {
+					positions = append(positions, i)
+				}
+				for i := len(body) - 10; i < len(body); i++ {
+					positions = append(positions, i)
+				}
+				for _, pos := range positions {
+					for _, ch := range []byte(b32Charset) {
+						if ch == body[pos] {
+							continue
+						}
+						b := []byte(valid)
+						b[len(p)+1+pos] = ch
+						n++
+						if c03ImplAccepts("cashaddr", string(b)) || c03AddrAccepts(p, string(b)) {
+							kC03Witness.One(ev, c03Witness{Codec: "cashaddr", Valid: valid, Corrupted: string(b)})
+							kC03Witness.One(ev, c03Witness{Codec: "cashaddr-address", Valid: valid, Corrupted: string(b)})
+							return
+						}
+					}
+				}
+			}
+		}
+	}
+	ev.Bulk("C03:boundary-singles-every-prefix-and-size", n, n)
+}
+
+// solveTruncated returns the symbols of syms with the eight symbols in front of the last t replaced so that the
+// remainder of prefix || 0 || (all but the last t symbols) is zero.  The remainder is affine in the symbols, so
+// the 40 bits of those eight symbols are found by Gaussian elimination over GF(2).
+func solveTruncated(prefix string, syms []byte, t int) ([]byte, bool) {
+	w := len(syms) - t
+	if w < 9 {
+		return nil, false
+	}
+	y := append([]byte{}, syms...)
+	base := implCashRemainder(prefix, y[:w])
+	var cols [40]uint64
+	for bit := 0; bit < 40; bit++ {
+		pos, b := w-8+bit/5, uint(bit%5)
+		y[pos] ^= 1 << b
+		cols[bit] = implCashRemainder(prefix, y[:w]) ^ base
+		y[pos] ^= 1 << b
+	}
+	// solve sum(x_bit * cols[bit]) == base: pivot[k] holds a vector whose highest set bit is k
+	var pivV, pivC [40]uint64
+	var have [40]bool
+	reduce := func(v, c uint64) (uint64, uint64) {
+		for k := 39; k >= 0; k-- {
+			if v>>uint(k)&1 == 1 && have[k] {
+				v ^= pivV[k]
+				c ^= pivC[k]
+			}
+		}
+		return v, c
+	}
+	for bit := 0; bit < 40; bit++ {
+		v, c := reduce(cols[bit], 1<<uint(bit))
+		if v != 0 {
+			k := 63 - bits.LeadingZeros64(v)
+			pivV[k], pivC[k], have[k] = v, c, true
+		}
+	}
+	target, comb := reduce(base, 0)
+	if target != 0 {
+		return nil, false
+	}
+	for bit := 0; bit < 40; bit++ {
+		if comb>>uint(bit)&1 == 1 {
+			y[w-8+bit/5] ^= 1 << uint(bit%5)
+		}
+	}
+	if implCashRemainder(prefix, y[:w]) != 0 {
+		return nil, false
+	}
+	return y, true
+}
+
 func addressAcceptanceProbe(ev *Ev) {
 	var prefixes []string
 	seen := map[string]bool{}
@@ -745,6 +871,24 @@ func addressAcceptanceProbe(ev *Ev) {
 		for _, p2 := range prefixes {
 			if p2 != p1 {
 				cands = append(cands, implCashRemainder(p2, syms)^implCashRemainder(p1, syms))
+			}
+		}
+		// a constant folded into the running remainder k symbols too early (a precomputed prefix state that already
+		// contains the final "xor 1", a fast path that resumes from a cached state): the remainder then differs
+		// by that constant pushed through k steps of the generator
+		for _, delta := range []uint64{1, 2, 0x1f} {
+			c := delta
+			for k := 0; k <= w+len(p1)+1; k++ {
+				if k > 0 {
+					c0 := c >> 35
+					c = (c & 0x07ffffffff) << 5
+					for i := 0; i < 5; i++ {
+						if (c0>>uint(i))&1 == 1 {
+							c ^= cashGen[i]
+						}
+					}
+				}
+				cands = append(cands, c)
 			}
 		}
 		for _, d := range cands {
@@ -1192,6 +1336,9 @@ func TestC03(t *testing.T) {
 			return // the enumeration is not seed-dependent: shard 0 runs it on all cores
 		}
 		addressAcceptanceProbe(ev)
+		if shard == 0 {
+			boundarySingles(ev)
+		}
 		if len(ev.violations) > 0 {
 			return
 		}
